@@ -32,6 +32,7 @@ class MEngine:
         ctx.extra['mir_items'] = len(self.fns)
         ctx.checker_cmds.append('cargo +nightly rustc --lib -- -Zunpretty=mir -C overflow-checks=on | mirsmt | z3-new (one process per obligation)')
         self.touched = set()
+        self._vac = set()
 
     # ---- selecting functions
     def fn(self, meth, self_type=None, kind=None):
@@ -75,7 +76,7 @@ class MEngine:
         return text
 
     def submit(self, name, hyps, goal, sem=('R', 'real'), axioms=(), raw_asserts=(), timeout=60, expect='unsat', key=None, note='', on_sat=None,
-               solver='z3-new', decl_extra=()):
+               solver='z3-new', decl_extra=(), vacuity=True):
         """Obligation: hyps |= goal, discharged when `hyps and not goal` is unsat (expect='unsat').
         expect='sat' is used for vacuity / reachability witnesses (goal=None: are the hyps satisfiable?)."""
         try:
@@ -87,6 +88,18 @@ class MEngine:
             return
         if on_sat is None:
             on_sat = default_replay(self.ctx, key or name)
+        # vacuity guard: the premises of every universally quantified obligation must be satisfiable
+        if vacuity and expect == 'unsat' and goal is not None and goal != T.bconst(False):
+            hk = (tuple(hyps), sem, tuple(a for a in raw_asserts))
+            if hk not in self._vac:
+                self._vac.add(hk)
+                try:
+                    vt = self.query_text(hyps, None, sem, axioms, raw_asserts, get_model=False, decl_extra=decl_extra)
+                    vf = self.pool.submit(vt, solver, min(timeout, 60), self.ctx.seed)
+                    self.pending.append({'name': name + ' [premises satisfiable]', 'fut': vf, 'expect': 'sat', 'key': 'vacuity', 'sem': sem, 'note': 'vacuity guard', 'text': vt,
+                                         'on_sat': None, 'timeout': timeout, 'solver': solver, 'vac': True})
+                except (ValueError, mir.Stuck):
+                    pass
         fut = self.pool.submit(text, solver, timeout, self.ctx.seed)
         self.pending.append({'name': name, 'fut': fut, 'expect': expect, 'key': key or name, 'sem': sem, 'note': note, 'text': text, 'on_sat': on_sat,
                              'timeout': timeout, 'solver': solver})
@@ -121,7 +134,9 @@ class MEngine:
         for p in self.pending:
             verdict, out, dt = p['fut'].result()
             ctx.solver_time += dt
-            if verdict == p['expect']:
+            if verdict == p['expect'] and p.get('vac'):
+                ctx.extra['vacuity_guards_passed'] = ctx.extra.get('vacuity_guards_passed', 0) + 1
+            elif verdict == p['expect']:
                 ctx.record(p['name'], 'M', 'held', key=p['key'], time_s=dt, bound='semantics %s' % (p['sem'],),
                            sample={'obligation': p['name'], 'semantics': str(p['sem']), 'verdict': verdict, 'time_s': round(dt, 3), 'note': p['note']} if len(ctx.samples) < 12 else None)
             elif p['expect'] == 'unsat' and verdict == 'sat':
@@ -129,6 +144,8 @@ class MEngine:
             elif p['expect'] == 'sat' and verdict == 'unsat':
                 ctx.record(p['name'], 'M', 'inconclusive', key=p['key'], time_s=dt, detail='vacuity: premises unsatisfiable')
                 ctx.inconclusive.append('%s: premises unsatisfiable (vacuous obligation)' % p['name'])
+            elif p.get('vac'):
+                ctx.extra.setdefault('vacuity_guards_undecided', []).append(p['name'])
             else:
                 ctx.record(p['name'], 'M', 'inconclusive', key=p['key'], time_s=dt, detail='%s: %s' % (verdict, out[:200]))
                 ctx.inconclusive.append('%s: solver answered %s after %.0fs' % (p['name'], verdict, dt))
